@@ -10,7 +10,7 @@ from typing import FrozenSet, List, Optional, Tuple
 from .ctx import Ctx
 from .model import AnalysisError
 from .report import RuleResult
-from .terms import (Attr, Call, ClassRef, Const, EnumMember, Ext, Loop, Op, Opaque, Outcome, Sym, Term,
+from .terms import (Attr, Call, ClassRef, Const, EnumMember, Ext, Lam, Loop, Op, Opaque, Outcome, Sym, Term,
                     guards_repr, norm_guards, walk)
 
 BASES = ('BOOL', 'NUMBER', 'STRING', 'ARRAY', 'RANGE', 'SET', 'MESSAGE')
@@ -43,6 +43,8 @@ def flagset(ctx: Ctx, t: Term, _depth: int = 0) -> Optional[FrozenSet[str]]:
         return a | b if t.op == '|' else a & b
     if isinstance(t, Call) and isinstance(t.func, ClassRef) and t.func.name == 'DataType' and len(t.args) == 1 and t.args[0] == Const(0):
         return frozenset()
+    if isinstance(t, Const) and isinstance(t.value, int) and not isinstance(t.value, bool) and t.value == 0:
+        return frozenset()  # the empty flag written as 0
     return None
 
 
@@ -217,6 +219,29 @@ def L4(ctx: Ctx) -> RuleResult:
             raise AnalysisError('L4', 'DataType.union: no return outcome')
     o = rets[0]
     loops = [e for e in o.effects if isinstance(e, Loop)]
+    v = o.value
+    if not loops and isinstance(v, Call) and isinstance(v.func, Ext) and v.func.name in ('functools.reduce', 'reduce') and not v.kwargs:
+        # reduce(or_, types, <empty>): the same left fold, written with the library combinator
+        fn = v.args[0] if v.args else None
+        is_or = (isinstance(fn, Ext) and fn.name in ('operator.or_', 'or_', 'operator.__or__')) or \
+            (isinstance(fn, Lam) and len(fn.params) == 2 and isinstance(fn.body, Op) and fn.body.op == '|' and set(fn.body.args) == {Sym(f'lam:{fn.params[0]}'), Sym(f'lam:{fn.params[1]}')})
+        if not is_or:
+            r.fail('DataType.union:step', f'the fold combines with {fn!r}, not with |', fi.where, '|', repr(fn))
+        else:
+            r.ok('reduce with | (operator.or_)')
+        if len(v.args) < 2 or v.args[1] != types:
+            r.fail('DataType.union:iter', f'the fold iterates {v.args[1] if len(v.args) > 1 else None!r}, not all of the argument', fi.where)
+        if len(v.args) < 3:
+            r.fail('DataType.union:init', 'reduce() without an initial value: the union of no types raises TypeError instead of giving the empty set', fi.where)
+        else:
+            fs = flagset(ctx, v.args[2])
+            if fs is None:
+                raise AnalysisError('L4', f'cannot fold initial accumulator value {v.args[2]!r}')
+            if fs:
+                r.fail('DataType.union:init', f'fold starts from {sorted(fs)} instead of the empty set', fi.where, [], sorted(fs))
+            else:
+                r.ok('fold starts from the empty set')
+        return r
     if len(loops) != 1:
         raise AnalysisError('L4', f'DataType.union: expected exactly one fold loop, found {len(loops)} (shape not interpretable)')
     lp = loops[0]
